@@ -9,7 +9,9 @@ pub mod c04;
 pub mod c05;
 pub mod c07;
 pub mod c09;
+pub mod c10;
 pub mod c11;
+pub mod c13;
 pub mod c14;
 pub mod c17;
 pub mod c18;
@@ -46,7 +48,9 @@ registry! {
     "C05" => c05::C05,
     "C07" => c07::C07,
     "C09" => c09::C09,
+    "C10" => c10::C10,
     "C11" => c11::C11,
+    "C13" => c13::C13,
     "C14" => c14::C14,
     "C17" => c17::C17,
     "C18" => c18::C18,
